@@ -20,6 +20,8 @@ enum Kind {
     Baseline,
     History,
     Cache,
+    /// the history at a place chosen with `--history-file`
+    HistoryCustom,
 }
 
 #[derive(Clone, Copy, PartialEq, Eq, Debug)]
@@ -74,6 +76,7 @@ fn target_of(kind: Kind, dir: &Path) -> PathBuf {
         Kind::Baseline => dir.join("bl.json"),
         Kind::History => dir.join(".sloc-guard/history.json"),
         Kind::Cache => dir.join(".sloc-guard/cache.json"),
+        Kind::HistoryCustom => dir.join("custom/h.json"),
     }
 }
 
@@ -82,6 +85,7 @@ fn save_cmd(kind: Kind) -> Vec<&'static str> {
         Kind::Baseline => vec!["check", "--no-sloc-cache", "--update-baseline", "--baseline", "bl.json", "--quiet"],
         Kind::History => vec!["snapshot", "--no-sloc-cache", "--quiet"],
         Kind::Cache => vec!["check", "--quiet"],
+        Kind::HistoryCustom => vec!["snapshot", "--no-sloc-cache", "--quiet", "--history-file", "custom/h.json"],
     }
 }
 
@@ -90,6 +94,7 @@ fn file_name(kind: Kind) -> &'static str {
         Kind::Baseline => "bl.json",
         Kind::History => "history.json",
         Kind::Cache => "cache.json",
+        Kind::HistoryCustom => "h.json",
     }
 }
 
@@ -191,6 +196,7 @@ fn one(sink: &mut Sink, scratch: &str, bin: &str, kind: Kind, prior: Prior, poin
             Kind::Baseline => vec![vec!["check", "--no-sloc-cache", "--baseline", "bl.json", "--quiet"], vec!["check", "--no-sloc-cache", "--update-baseline", "--baseline", "bl.json", "--quiet"]],
             Kind::History => vec![vec!["stats", "trend", "--no-sloc-cache"], vec!["stats", "history"], vec!["snapshot", "--no-sloc-cache", "--force", "--quiet"]],
             Kind::Cache => vec![vec!["check", "--quiet"], vec!["stats", "summary"], vec!["snapshot", "--quiet", "--dry-run"]],
+            Kind::HistoryCustom => vec![vec!["stats", "trend", "--no-sloc-cache", "--history-file", "custom/h.json"], vec!["stats", "history", "--history-file", "custom/h.json"], vec!["snapshot", "--no-sloc-cache", "--force", "--quiet", "--history-file", "custom/h.json"]],
         };
         let entries_before = after.as_ref().map(|a| a.len());
         for f in follow {
@@ -215,16 +221,62 @@ fn one(sink: &mut Sink, scratch: &str, bin: &str, kind: Kind, prior: Prior, poin
     });
 }
 
+/// A temporary file with the very name the next save will use is already there (left by a
+/// killed save of a process that had the same pid — pid 1 in a container, every run) and is
+/// longer than the new content.  The save must still leave exactly the new content.
+fn stale_temp_case(sink: &mut Sink, scratch: &str, bin: &str, kind: Kind) {
+    if !sink.want() {
+        sink.skip();
+        return;
+    }
+    let dir = PathBuf::from(scratch).join(format!("c{}", sink.n));
+    let p = Proj { dir: dir.clone(), bin: bin.to_string() };
+    let _ = prepare(&p, kind, Prior::Valid);
+    let (_, _, _) = p.run(&save_cmd(kind), &[]);
+    let new_bytes = std::fs::read(target_of(kind, &dir)).unwrap_or_default();
+    let _ = prepare(&p, kind, Prior::Valid);
+    // stale temporaries for every pid the next process can plausibly get
+    // (pids are handed out in sequence: a probe process tells where the sequence stands)
+    let probe = std::process::Command::new("true").spawn().map(|mut c| { let id = c.id(); let _ = c.wait(); id }).unwrap_or_else(|_| std::process::id());
+    let pid_max: u32 = std::fs::read_to_string("/proc/sys/kernel/pid_max").ok().and_then(|t| t.trim().parse().ok()).unwrap_or(32768);
+    let parent = target_of(kind, &dir).parent().unwrap().to_path_buf();
+    std::fs::create_dir_all(&parent).unwrap();
+    let junk = "x".repeat(new_bytes.len() + 4096);
+    let pids: Vec<u32> = (1..=800u32).map(|i| (probe + i) % pid_max).collect();
+    for pid in &pids {
+        std::fs::write(parent.join(format!(".{}.tmp.{pid}", file_name(kind))), &junk).unwrap();
+    }
+    let child = std::process::Command::new(bin).args(save_cmd(kind)).current_dir(&dir).env("NO_COLOR", "1").env("SLOC_GUARD_VERIF_NOW", "1700000000").stdout(std::process::Stdio::null()).stderr(std::process::Stdio::null()).spawn().expect("run sloc-guard");
+    let covered = pids.contains(&child.id());
+    let _ = child.wait_with_output();
+    let after = std::fs::read(target_of(kind, &dir)).unwrap_or_default();
+    let pred = if !covered {
+        None
+    } else if !same_content(&after, &new_bytes) {
+        Some(format!("a stale temporary file with the save's own name was there: the {kind:?} file now holds {} bytes{} instead of the {} bytes of the new content", after.len(), if serde_json::from_slice::<serde_json::Value>(&after).is_err() { " that do not parse" } else { "" }, new_bytes.len()))
+    } else {
+        None
+    };
+    let _ = std::fs::remove_dir_all(&dir);
+    sink.push(Case { request: "noop".into(), implementation: "-".into(), pred: pred.map_or_else(|| "ok".to_string(), |p| format!("FAIL {p}")), tag: format!("{kind:?}/stale-temp/{}", if covered { "same-name" } else { "pid-out-of-range" }) });
+}
+
 pub fn run(_tier: Tier, _seed: u64, out: &str) {
     let mut sink = Sink::create(out);
     if let Ok(bin) = std::env::var("SGVERIF_BIN") {
         let scratch = std::env::var("SGVERIF_SCRATCH").unwrap_or_else(|_| "/verif/.build/scratch/c13".to_string());
-        for kind in [Kind::Baseline, Kind::History, Kind::Cache] {
+        for kind in [Kind::Baseline, Kind::History, Kind::Cache, Kind::HistoryCustom] {
             for prior in [Prior::Absent, Prior::Valid, Prior::Large, Prior::Symlink] {
                 for point in POINTS {
                     one(&mut sink, &scratch, &bin, kind, prior, point);
                 }
             }
+        }
+    }
+    if let Ok(bin) = std::env::var("SGVERIF_BIN") {
+        let scratch = std::env::var("SGVERIF_SCRATCH").unwrap_or_else(|_| "/verif/.build/scratch/c13".to_string());
+        for kind in [Kind::Baseline, Kind::History] {
+            stale_temp_case(&mut sink, &scratch, &bin, kind);
         }
     }
     sink.extra.insert("exhaustive".into(), serde_json::json!(true));
